@@ -210,10 +210,14 @@ Fixpoint apply_attrs {T} (set : T -> bytes -> wv -> res T) (x : T) (attrs : list
   end.
 
 (* ---- DOM writer (dom/writer.py) ---- *)
+(* { remapped.get(k, k): v for k, v in options.items() }: a dict comprehension, so a later entry with the same
+   (renamed) key overrides an earlier one *)
 Definition remap (name : String.string) (o : dopts) : dopts :=
-  map (fun p => if beq (fst p) (B "type") && String.eqb name "diff" then (B "diff_type", snd p)
-                else if beq (fst p) (B "format") && String.eqb name "meta" then (B "meta_format", snd p)
-                else p) o.
+  fold_left (fun acc p =>
+               let k := if beq (fst p) (B "type") && String.eqb name "diff" then B "diff_type"
+                        else if beq (fst p) (B "format") && String.eqb name "meta" then B "meta_format"
+                        else fst p in
+               assoc_set beq k (snd p) acc) o [].
 
 Definition kw (o : dopts) (k : String.string) : wv := match assoc_get beq (B k) o with Some v => v | None => WNone end.
 Definition kw_opt (o : dopts) (k : String.string) : option wv := assoc_get beq (B k) o.
